@@ -22,13 +22,24 @@ Alphabet == {TWord("numeric", 0), TWord("unsigned", 8), TWord("signed", 0), TWor
              TWord("address", 0), TWord("signed", 160),
              TWord("bytes", 32), TBytes, TAny, TDyn(0), TDyn(1), TMap(0, 1), TMap(1, 2), TMap(2, 2), TFix(0, 3)}
 
-AllJ == {<<v, e>> : v \in V, e \in Alphabet} \cup {<<v, EqJ(w)>> : v \in V, w \in V}
+(* sets of four judgements are drawn from a smaller alphabet (one word per usage class, one constructor of each kind) *)
+Alphabet4 == {TWord("numeric", 0), TWord("unsigned", 8), TWord("address", 160), TWord("signed", 160), TBytes,
+              TDyn(1), TMap(0, 1), TMap(1, 2), TFix(0, 3)}
+
+AllJOver(A) == {<<v, e>> : v \in V, e \in A} \cup {<<v, EqJ(w)>> : v \in V, w \in V}
+AllJ == AllJOver(Alphabet)
 
 Sets == IF MaxJ = 2 THEN {{a, b} : a, b \in AllJ}
         ELSE IF MaxJ = 3 THEN {{a, b, c} : a, b, c \in AllJ}
-        ELSE {{a, b, c, d} : a, b, c, d \in AllJ}
+        ELSE {{a, b, c} : a, b, c \in AllJ}
 
-Init == \E j \in Sets : J = j /\ S = {Seed(V, j)} /\ steps = 0
+(* MaxJ = 4: additionally every set of three judgements over the smaller alphabet extended by a fourth *)
+A4 == AllJOver(Alphabet4)
+Sets3of4 == {{a, b, c} : a, b, c \in A4}
+
+Init == \/ \E j \in Sets : J = j /\ S = {Seed(V, j)} /\ steps = 0
+        \/ /\ MaxJ = 4
+           /\ \E s \in Sets3of4, d \in A4 : J = s \cup {d} /\ S = {Seed(V, J)} /\ steps = 0
 
 AllDone == \A c \in S : c.done
 
